@@ -620,6 +620,8 @@ class Evaluator:
             return self.problem(f"attribute {name} of {o.cls.name} unknown", node)
         if t == "class":
             ci = self.repo.classes[v[1]]
+            if ci.fq in self.opaque_classes or ci.name in self.fluent_roots:
+                return ("unbound", ci.name, name)  # `Rule.should(subject)` is `subject.should()`
             m = self.repo.lookup_method(ci, name)
             if m is not None:
                 if m.is_staticmethod:
@@ -883,6 +885,8 @@ class Evaluator:
             return self.call_method(f[1], f[2], args, kwargs, node)
         if t == "partial":
             return self.call(f[1], [*f[2], *args], {**dict(f[3]), **kwargs}, node)
+        if t == "unbound" and args:
+            return self.call_method(args[0], f[2], args[1:], kwargs, node)
         if t == "obj":
             m = self.repo.lookup_method(self.heap_objs[f[1]].cls, "__call__")
             if m is not None:
@@ -1072,7 +1076,19 @@ class Evaluator:
 
     # method calls on non-object receivers ---------------------------------
     def call_method(self, recv, name, args, kwargs, node):
+        recv = self.reduce(recv)
         t = recv[0]
+        if t == "ite":
+            n = len(self.ctx)
+            self.ctx.append(("if", recv[1]))
+            a = self.call_method(recv[2], name, args, kwargs, node)
+            del self.ctx[n:]
+            self.ctx.append(("if", c_not(recv[1])))
+            b = self.call_method(recv[3], name, args, kwargs, node)
+            del self.ctx[n:]
+            return a if a == b else ("ite", recv[1], a, b)
+        if t == "obj":
+            return self.call(self.getattr(recv, name, node), args, kwargs, node)
         if t == "fluent":
             step = (name, tuple(self.snapshot(a) for a in args), tuple(sorted((k, self.snapshot(v)) for k, v in kwargs.items())))
             return ("fluent", recv[1], recv[2] + (step,))
